@@ -119,6 +119,27 @@ CLAIMED = {
          "C09's; BLOB 'changed' is object identity; handler registration (dir() scan, @on) not on the verified path.",
     technique="contract-based deductive verification: loop invariant over a symbolic handler table, ghost invocation counters and ordered trace, z3",
     design="4 C14"),
+ "C15": dict(
+    category="proof",
+    text="Deductive: the client's view is built by the real code from definitions with symbolic names/attributes/values (two devices, up to two properties and "
+         "two elements each); then each message kind -- def (5 kinds), set (5 kinds, incl. kind mismatch, repeated and unknown elements, empty/absent BLOB payloads), "
+         "delProperty with and without name, message/ping/getProperties -- with symbolic device/name/children is processed by the real BaseClient.process_message and "
+         "the resulting view is proved equal, for an ARBITRARY query (device, property, element), to the reference step function written from the statement (whole-view "
+         "postcondition: untouched keys included), and processing is proved never to raise; the client TCP receive-loop iteration is proved exception-free for any bytes.",
+    note="Universe shape bounded (2 devices x 2 properties x 2 elements, 0..2 children; thorough 0..3), everything else symbolic; messages conformant (C13); well-formed BLOB payloads; "
+         "base64/int external. A native reference-interpreter stand-in runs when the engine cannot reach changed code.",
+    technique="contract-based deductive verification: whole-view postcondition against a reference step function, VCs from the real AST by symbolic execution, z3",
+    design="4 C15"),
+ "C16": dict(
+    category="proof",
+    text="Deductive: _CallbackConfig.accepts_event is proved equal to the statement's filter semantics for every event class x filter type with symbolic filters and names; "
+         "BaseClient.trigger_event is proved with a loop invariant over ANY number of callbacks: exactly the accepting callbacks get the event once, a raising callback neither "
+         "escapes nor stops delivery to the rest; onevent appends exactly one config and returns its id, rmonevent removes exactly the configs matching all given criteria "
+         "(lists of 0..2, thorough 3, all fields symbolic); at the raising sites an update is proved to raise ValueUpdate/StateUpdate iff the value/state changed, each event's "
+         "old value being the previous value and the last event's new value the current one (unbroken chain, repeated listings included).",
+    note="Callbacks abstract (may raise, plain or coroutine), no re-entrant (un)registration during dispatch; per-object chain (a redefinition creates new elements); BLOB identity comparison.",
+    technique="contract-based deductive verification: loop invariant over a symbolic callback list, chain obligations at the event-raising sites, z3",
+    design="4 C16"),
 }
 
 NOT_YET = "check not built yet (work in progress)"
